@@ -28,6 +28,7 @@ import (
 	"verifharness/internal/c20"
 	"verifharness/internal/common"
 	"verifharness/internal/inventory"
+	"verifharness/internal/synth"
 )
 
 type sub func(tier string, seed int64, outDir string) *common.Meta
@@ -66,6 +67,10 @@ var gens = map[string]func(outDir string) error{
 }
 
 func main() {
+	if len(os.Args) >= 2 && os.Args[1] == "synth-corpus" {
+		synth.BuildCorpus()
+		return
+	}
 	if len(os.Args) < 2 {
 		fmt.Fprintln(os.Stderr, "usage: vh <prop|gen> ...")
 		os.Exit(2)
